@@ -66,8 +66,10 @@ class VClass(object):
 
 
 class VModule(object):
+  _ids = {}
   def __init__(self, name):
     self.name = name
+    self.fn_id = VModule._ids.setdefault(name, 8000000 + len(VModule._ids))
   ty = FN
 
 
@@ -146,7 +148,7 @@ def coerce(v, ty):
     if len(v.py) == 1 and v.py[0][0] == 'raw' and z3.eq(z3.simplify(v.py[0][2]), z3.simplify(bytes_len_fn()(v.py[0][1]))):
       return v.py[0][1]
     raise Unsupported('storing a composite byte string')
-  if isinstance(v, (VFunc, VBound, VClass)) and ty.k in ('fn', 'any'):
+  if isinstance(v, (VFunc, VBound, VClass, VModule)) and ty.k in ('fn', 'any'):
     return z3.IntVal(v.fn_id)
   if isinstance(v, (VFunc, VBound, VClass, VModule)):
     raise Unsupported('storing a callable into %r' % ty)
